@@ -278,6 +278,15 @@ def run(chk, tier):
                 report_pair(chk, c, i, g, mm, mg, stats)
                 if len(chk.samples) < 2 and w["name"] in ("b", "d"):
                     chk.sample(dict(witness=w["key"], session=c, main=pretty(i[1]), glib=pretty(g[1])))
+        # regression sessions of the classifier
+        fx = FourWay([c for _, c in W.EXTRA], worker)
+        for (key0, _), c, i, g, mm, mg in zip(W.EXTRA, fx.cases, fx.impl_m, fx.impl_g, fx.model_m, fx.model_g):
+            chk.count()
+            got = D.classify(c, i, g)[0] if D.observable(c, i) != D.observable(c, g) else None
+            if got != key0:
+                chk.violation("witness-not-reproduced:%s" % key0, "a regression session of class %s is classified as %s" % (key0, got),
+                              dict(kind="c20", case=c), found=False)
+            report_pair(chk, c, i, g, mm, mg, stats)
         # F9(e): on its witness the real GLib loop behaves as the mark-after model, the mark-first variant differs
         we = W.MARK_ORDER
         fe = FourWay([we["case"]], worker)
